@@ -21,6 +21,7 @@ import (
 	"github.com/rqlite/rqlite/v10/cluster/proto"
 	command "github.com/rqlite/rqlite/v10/command/proto"
 	"github.com/rqlite/rqlite/v10/internal/rsync"
+	"github.com/rqlite/rqlite/v10/internal/vhook"
 	pb "google.golang.org/protobuf/proto"
 )
 
@@ -346,6 +347,7 @@ func (s *Service) checkCommandPerm(c *proto.Command, perm string) bool {
 	if s.credentialStore == nil {
 		return true
 	}
+	vhook.Trace(s.addr.String(), "cl.perm", "perm", perm, "ok", s.credentialStore.AA(c.Credentials.GetUsername(), c.Credentials.GetPassword(), perm))
 	return s.credentialStore.AA(c.Credentials.GetUsername(), c.Credentials.GetPassword(), perm)
 }
 
@@ -396,6 +398,7 @@ func (s *Service) handleConn(conn net.Conn) {
 			return
 		}
 
+		vhook.Trace(s.addr.String(), "cl.rx", "type", c.Type.String(), "user", c.Credentials.GetUsername(), "pw", c.Credentials.GetPassword())
 		switch c.Type {
 		case proto.Command_COMMAND_TYPE_GET_NODE_META:
 			stats.Add(numGetNodeAPIRequest, 1)
